@@ -315,7 +315,7 @@ def run_nnx(ctx, i, rng, log):
     elif r < 0.88:
       script.append(('fork',))
     else:
-      script.append(('reseed', rng.choice(names) if names else 'default', rng.randint(0, 5)))
+      script.append(('reseed', rng.choice(names) if names else 'default', rng.randint(0, 5), rng.random() < 0.5))   # seed given as int or as a key
   desc = dict(streams=seeds, default=default_seed, script=[repr(s) for s in script][:40])
   with ctx.case('nnx', i, desc, nontrivial=len(script) >= 5):
     def make():
@@ -354,7 +354,7 @@ def run_nnx(ctx, i, rng, log):
           forked = jax.tree.map(lambda x: x, nnx.state(rngs))  # observation only
           out.append(('fork',))
         elif st[0] == 'reseed':
-          nnx.reseed(rngs, **{st[1]: st[2]})
+          nnx.reseed(rngs, **{st[1]: (jax.random.key(st[2]) if st[3] else st[2])})
           out.append(('reseed', st[1], st[2]))
       return out
 
